@@ -541,6 +541,53 @@ def pair_histories(tier):
     return out
 
 
+# ---------------------------------------------------------------------------------------------- long histories
+def long_task(task):
+    """One long history: registered functions (and direct calls) are used once, then N *other* key patterns of the operators
+    they use are generated, then the first calls are repeated: results must not depend on how much was generated in between
+    (bounded caches, eviction, anything that invalidates what compiled functions look up late)."""
+    wrapper, n = task
+    from itertools import combinations, permutations
+    from ..explore import outcome
+    from kingdon import Algebra, MultiVector
+    res = Result()
+    alg = Algebra(4, wrapper=(lambda f: f)) if wrapper else Algebra(4)
+    keys = list(alg.canon2bin.values())
+
+    def f(a, b):
+        return a * b + (a | b)
+
+    def g(a):
+        return (a * a).inv() + ~a
+    rf, rg = alg.register(f), alg.register(g)
+    x = MultiVector.fromkeysvalues(alg, (keys[1], keys[6]), [F(2), F(3)])
+    e = MultiVector.fromkeysvalues(alg, (keys[2],), [F(5)])
+    calls = {'registered f(x, e)': lambda: rf(x, e), 'registered g(x)': lambda: rg(x), 'x*e': lambda: x * e, 'x.inv()': lambda: x.inv(), 'x >> e': lambda: x >> e}
+    first = {k: outcome(lambda c, th=th: th(), None, normalise) for k, th in calls.items()}
+    pats = []
+    for k in (1, 2, 3):
+        for c in combinations(keys, k):
+            for p in permutations(c):
+                pats.append(p)
+    pats = pats[:n]
+    b = MultiVector.fromkeysvalues(alg, (keys[3],), [2])
+    for p in pats:
+        y = MultiVector.fromkeysvalues(alg, p, [1 + i for i in range(len(p))])
+        y * b
+        y | b
+        ~y
+        res.transitions += 3
+    w = 'wrapper' if wrapper else 'nowrapper'
+    for k, th in calls.items():
+        res.evals += 1
+        res.transitions += 1
+        again = outcome(lambda c, th=th: th(), None, normalise)
+        if again != first[k]:
+            res.violate(violation(f'long-history:{w}:{k.split("(")[0].split()[0]}', f'Algebra(4) ({w}): {k} gives a different result after {len(pats)} other key patterns of gp / ip / reverse were used',
+                                  {'world': 'long', 'history': [], 'long': [wrapper, n]}, first[k], again))
+    return res.asdict()
+
+
 # ---------------------------------------------------------------------------------------------- cause signatures
 def cause(world_id, hist, kind):
     """Structural cause signature of a history violation: which kind, with/without wrapper, and the multiset of
@@ -634,6 +681,15 @@ def drive(ctx):
         for v in out['violations']:
             res.violate(v)
     res.extra['pairwise_interference'] = {'worlds': pworlds, 'histories_ABA': npairs, 'operators': len(P_BINARY) + len(P_UNARY), 'modes': ['direct', 'registered function']}
+    # long histories: many other key patterns between two uses of a registered function
+    nlong = 300 if tier == 'quick' else 1500
+    for out in ctx.map('long_task', [(False, nlong), (True, nlong)]):
+        res.evals += out['evals']
+        res.transitions += out['transitions']
+        res.traces += out['transitions']
+        for v in out['violations']:
+            res.violate(v)
+    res.extra['long_histories'] = {'patterns_between_repeated_calls': nlong, 'worlds': ['Algebra(4)', 'Algebra(4)+wrapper']}
     res.nontrivial = res.states
     res.samples = samples[:3]
     # concurrent part
@@ -654,6 +710,8 @@ def replay(case):
         from . import C09_threads
         return C09_threads.replay(case)
     alpha = alphabet(wid)
+    if 'long' in case:
+        return long_task(tuple(case['long']))
     if 'pair' in case:
         return pair_task((wid, [case['pair']]))
     if 'fault_k' in case:
